@@ -53,8 +53,11 @@ TRUSTED = (
     "translator tools/translate_vrh.py (fail-closed ast whitelist: cIJ/sIJ accessors, the nine averages, + - * /, "
     "numeric literals read as exact decimals, numpy.sqrt, the exact pint call shape "
     "units.Quantity(e, units.rydberg).to(units.kg * units.km ** 2 / units.s ** 2).magnitude read as e * ry, "
-    "scipy's 'Avogadro constant' read as the model's N_A, single-assignment locals; static.py: c[:, I, J] reads, "
-    "column stores, numpy.linalg.inv only of the whole filled cij) with POINTWISE reading of numpy/pandas "
+    "scipy's 'Avogadro constant' read as the model's N_A, single-assignment locals (also tuple form), calls of "
+    "uniquely bound plain helper functions inlined by let-binding their parameters (helper body inside the same "
+    "grammar, sees only its parameters); static.py: c[:, I, J] reads, column stores, literal-tuple loops unrolled, "
+    "fill-loop key expression evaluated on all 36 cells and checked in Coq, numpy.linalg.inv only of the whole "
+    "filled cij) with POINTWISE reading of numpy/pandas "
     "arithmetic; only pattern-checked: REGEX_CIJ is executed by Python's re on the accessor names in use, "
     "c_ = ModulusRepresentation.create, class shape of CijVolumeBaseInterface, the loop filling cij from the "
     "columns, v2p/getattr forwarding of CijPressureBaseInterface, `if input02:` guards; lemma templates "
@@ -125,8 +128,8 @@ def static_tie(ctx, rd: Path, groups=tuple(CALCULATOR_GROUPS)):
     if "getattr-dispatch" in groups and "getattr-dispatch" not in why:
         try:
             write(rd / "Gen_voigt.v", translate_voigt.translate((REPO / "cij/util/voigt.py").read_text()))
-        except (translate_voigt.Untranslatable, SyntaxError, OSError) as e:
-            why["getattr-dispatch"] = "cij/util/voigt.py: %s" % e
+        except Exception as e:      # Untranslatable, or the voigt translator itself is broken: the group fails closed
+            why["getattr-dispatch"] = "cij/util/voigt.py (tools/translate_voigt.py): %s: %s" % (type(e).__name__, e)
 
     # ---- 2. write and compile the generated definitions ---------------------------------------------
     write(rd / "VRHTieBase.v", (TEMPLATES / "VRHTieBase.v").read_text())
